@@ -55,8 +55,12 @@ def sized_body(rng: random.Random):
         for i in range(rng.choice([1, 2, 3])):
             parts.append((f"f{i}", None, [], b"v" * rng.choice([0, 1, 9, 10, 11, 49, 50, 51, 120]), False))
     elif kind == "many":
+        # many small parts of every shape a counter might be tempted to skip: empty / body-less fields,
+        # empty names, file inputs left empty (filename="" and no content), empty files with a name
         for i in range(rng.choice([3, 4, 5, 6, 12])):
-            parts.append((f"f{i}", None, [], b"v" * rng.choice([0, 1, 2]), rng.random() < 0.5))
+            fn = rng.choice([None, None, None, "", "", "f.txt"])
+            name = f"f{i}" if rng.random() < 0.85 else ""
+            parts.append((name, fn, [], b"v" * rng.choice([0, 0, 1, 2]), rng.random() < 0.5))
     elif kind == "bigfile":
         parts.append(("a", None, [], b"x", False))
         parts.append(("up", "f.bin", [b"Content-Type: application/octet-stream"], bytes(rng.choice(b"ab\r\n-") for _ in range(rng.choice([10, 50, 51, 200, 600]))).replace(b"\r\n--", b"\r\n.-"), False))
@@ -919,10 +923,11 @@ class RequestHistories(Stream):
 
 CHECK = Check(
     prop="C10",
-    gen=["Multipart", "Urlencode", "FormGlue"],
-    modules=["WzVerif.Props.C10"],
+    gen=["Multipart", "Urlencode", "FormGlue", "PyFns_Multipart"],
+    modules=["WzVerif.Props.C10", "WzVerif.Props.C10T"],
     streams=[DecoderLimits(), ParserLimitsChecked(), UrlRead(), RequestLimits(), RequestHistories()],
     assumptions=[
+        "C10T (MultipartDecoder.receive_data as regenerated from the source): bytearray.extend is modelled as appending (prelude, kernel row bytearray); the limit attribute is an Optional int handed over as such",
         "the decoder / parser model is the one of C01 (Model/Multipart.lean) with the limits as parameters; its correspondence is checked by the streams of C01 and by limits-decoder / limits-parser here",
         "request level (Model/FormLimitsRequest.lean): wsgi.input is a BytesIO-like stream (every read returns what it is asked for while bytes remain; short reads are the subject of C01/C09); LimitedStream appears through the closed form of read()/readall() over such an input (what it can still deliver, what the read after the last byte does) - LimitedStream itself is C09's model; this closed form is validated against the code by stream request-histories",
         "get_json is modelled only by its effect on the body (get_data(cache) and the _cached_json short cut); as_text decoding, FileStorage / SpooledTemporaryFile and parameter_storage_class conversions are outside the model",
